@@ -1,3 +1,523 @@
-From Coq Require Import ZArith List Lia.
-From PV Require Import C14.C14_Model.
-Lemma placeholder : True. Proof. exact I. Qed.
+(* C14 — refinement lemmas: each view-level operation equals its effect on the flat byte string. *)
+From Coq Require Import ZArith List Bool Lia.
+From PV Require Import C14.C14_Model C14.C14_Lib.
+Import ListNotations.
+Local Open Scope Z_scope.
+
+Lemma firstn_0 {A} (l : list A) : firstn (Z.to_nat 0) l = [].
+Proof. reflexivity. Qed.
+Lemma skipn_0 {A} (l : list A) : skipn (Z.to_nat 0) l = l.
+Proof. reflexivity. Qed.
+Lemma firstn_whole {A} (n : Z) (l : list A) : zlen l <= n -> firstn (Z.to_nat n) l = l.
+Proof. unfold zlen; intros; apply firstn_all2; lia. Qed.
+Lemma skipn_whole {A} (n : Z) (l : list A) : zlen l <= n -> skipn (Z.to_nat n) l = [].
+Proof. unfold zlen; intros; apply skipn_all2; lia. Qed.
+Lemma firstn_app_Z {A} (n : Z) (a b : list A) : 0 <= n <= zlen a -> firstn (Z.to_nat n) (a ++ b) = firstn (Z.to_nat n) a.
+Proof. unfold zlen; intros; apply firstn_app_le; lia. Qed.
+Lemma firstn_app_Z2 {A} (n : Z) (a b : list A) : zlen a <= n -> firstn (Z.to_nat n) (a ++ b) = a ++ firstn (Z.to_nat (n - zlen a)) b.
+Proof. unfold zlen; intros; rewrite firstn_app_ge by lia. do 2 f_equal; lia. Qed.
+Lemma skipn_app_Z {A} (n : Z) (a b : list A) : 0 <= n <= zlen a -> skipn (Z.to_nat n) (a ++ b) = skipn (Z.to_nat n) a ++ b.
+Proof. unfold zlen; intros; apply skipn_app_le; lia. Qed.
+Lemma skipn_app_Z2 {A} (n : Z) (a b : list A) : zlen a <= n -> skipn (Z.to_nat n) (a ++ b) = skipn (Z.to_nat (n - zlen a)) b.
+Proof. unfold zlen; intros; rewrite skipn_app_ge by lia. f_equal; lia. Qed.
+
+Lemma wf_view_cons st e v : wf_view st (e :: v) <-> wf_elem st e /\ wf_view st v.
+Proof. unfold wf_view; split; [intros H; inversion H; auto | intros [? ?]; constructor; auto]. Qed.
+Lemma wf_len_nonneg st e : wf_elem st e -> 0 <= iv_len e.
+Proof. intros (b & _ & _ & H & _); exact H. Qed.
+Lemma wf_off_nonneg st e : wf_elem st e -> 0 <= iv_off e.
+Proof. intros (b & _ & H & _); exact H. Qed.
+
+Lemma flatT_single st e : flatT st [e] = bytesT st e.
+Proof. unfold flatT; simpl; apply app_nil_r. Qed.
+
+Lemma zlen_flatT_rev st v : wf_view st v -> zlen (flatT st (rev v)) = v_sum v.
+Proof.
+  induction 1 as [|e v He Hv IH]; [reflexivity|].
+  simpl rev. rewrite flatT_app, flatT_single, zlen_app, IH, v_sum_cons, (zlen_bytesT _ _ He). lia.
+Qed.
+
+(* ================================================================ sum *)
+Lemma v_sum_refines st v : wf_view st v -> v_sum v = zlen (flatT st v).
+Proof. intros; symmetry; apply zlen_flatT; assumption. Qed.
+
+(* ================================================================ shrink_to *)
+Lemma shrink_loop_spec st v : wf_view st v -> forall size v' hit s', 0 < size ->
+  shrink_loop v size = (v', hit, s') ->
+  wf_view st v' /\
+  (hit = true -> size <= v_sum v /\ flatT st v' = firstn (Z.to_nat size) (flatT st v)) /\
+  (hit = false -> v' = v /\ s' = size - v_sum v /\ v_sum v < size).
+Proof.
+  induction 1 as [|e v He Hv IH]; intros size v' hit s' Hs E; simpl in E.
+  - inversion E; subst. split; [constructor|]. split; [discriminate|]. intros _. unfold v_sum; simpl. repeat split; lia.
+  - pose proof (wf_len_nonneg _ _ He) as Hl. pose proof (v_sum_nonneg st v Hv) as Hsum.
+    rewrite v_sum_cons. destruct (size <=? iv_len e) eqn:C.
+    + apply Z.leb_le in C. inversion E; subst. split; [constructor; [apply wf_take; auto; lia | constructor]|].
+      split; [|discriminate]. intros _. split; [lia|].
+      rewrite flatT_single, flatT_cons.
+      rewrite firstn_app_Z by (rewrite (zlen_bytesT _ _ He); lia).
+      apply bytesT_take; lia.
+    + apply Z.leb_gt in C. destruct (shrink_loop v (size - iv_len e)) as [[v1 h1] s1] eqn:R.
+      assert (P : 0 < size - iv_len e) by lia.
+      destruct (IH _ _ _ _ P R) as (W & Hh & Hn). inversion E; subst.
+      split; [constructor; auto|]. split.
+      * intros T. destruct (Hh T) as (L & F). split; [lia|].
+        rewrite !flatT_cons, F. rewrite firstn_app_Z2 by (rewrite (zlen_bytesT _ _ He); lia).
+        rewrite (zlen_bytesT _ _ He). reflexivity.
+      * intros T. destruct (Hn T) as (-> & -> & L). repeat split; lia.
+Qed.
+
+Lemma v_shrink_to_refines st v size v' r : wf_view st v -> 0 <= size ->
+  v_shrink_to v size = (v', r) ->
+  r = Z.min size (v_sum v) /\ flatT st v' = firstn (Z.to_nat r) (flatT st v) /\ wf_view st v' /\
+  (r = size \/ v' = v).
+Proof.
+  intros W Hs E. unfold v_shrink_to in E. pose proof (v_sum_nonneg st v W) as Hsum.
+  destruct (size =? 0) eqn:Z0.
+  - apply Z.eqb_eq in Z0; inversion E; subst. repeat split; [lia | constructor | auto].
+  - apply Z.eqb_neq in Z0. destruct (shrink_loop v size) as [[v1 h] s1] eqn:R.
+    assert (P : 0 < size) by lia.
+    destruct (shrink_loop_spec st v W _ _ _ _ P R) as (W1 & Hh & Hn).
+    destruct h; inversion E; subst.
+    + destruct (Hh eq_refl) as (L & F). repeat split; auto; lia.
+    + destruct (Hn eq_refl) as (-> & -> & L). repeat split; auto; try lia.
+      replace (size - (size - v_sum v)) with (v_sum v) by lia.
+      rewrite firstn_whole; [reflexivity | rewrite (zlen_flatT st v W); lia].
+Qed.
+
+(* ================================================================ extract front / back: generic *)
+Section XLoops.
+  Context {A : Type} (cb : A -> Z -> Z -> Z -> cbres A) (st : store) (Qid : Z -> Prop) (B : Z).
+  Definition Qv (v : view) : Prop := Forall (fun e => Qid (iv_id e)) v.
+
+  (* ---------- front: Inv a ex — accumulator a holds the bytes ex extracted so far *)
+  Section Front.
+    Context (Inv NegI : A -> list byte -> Prop).
+    Hypothesis cb_step : forall a ex id off n, Qid id -> wf_elem st (mkiov id off n) -> Inv a ex -> zlen ex + n <= B ->
+      match cb a id off n with
+      | CbOk a' => Inv a' (ex ++ bytesT st (mkiov id off n))
+      | CbNeg a' => NegI a' ex
+      | CbOob => False
+      end.
+
+    Lemma xf_loop_spec v : wf_view st v -> Qv v -> forall bytes a ex, 0 <= bytes -> zlen ex + bytes <= B -> Inv a ex ->
+      match xf_loop cb v bytes a with
+      | XOob => False
+      | XDone v' rem a' =>
+          0 <= rem /\ bytes - rem = Z.min bytes (v_sum v) /\
+          Inv a' (ex ++ firstn (Z.to_nat (bytes - rem)) (flatT st v)) /\
+          flatT st v' = skipn (Z.to_nat (bytes - rem)) (flatT st v) /\ wf_view st v' /\ Qv v' /\
+          zlen v' <= zlen v
+      | XNeg v' a' =>
+          exists k, 0 <= k <= bytes /\ k <= v_sum v /\ NegI a' (ex ++ firstn (Z.to_nat k) (flatT st v)) /\
+                    flatT st v' = skipn (Z.to_nat k) (flatT st v) /\ wf_view st v' /\ Qv v' /\ zlen v' <= zlen v
+      end.
+    Proof.
+      induction 1 as [|e v He Hv IH]; intros Q bytes a ex Hb HB I; simpl.
+      - unfold v_sum; simpl. rewrite Z.sub_diag, firstn_0, app_nil_r.
+        repeat split; auto; try lia; constructor.
+      - inversion Q as [|? ? Qe Qr]; subst.
+        pose proof (wf_len_nonneg _ _ He) as Hl. pose proof (wf_off_nonneg _ _ He) as Ho.
+        pose proof (v_sum_nonneg st v Hv) as Hsum. pose proof (zlen_bytesT _ _ He) as Lb.
+        rewrite v_sum_cons, flatT_cons, zlen_cons.
+        destruct (bytes <=? iv_len e) eqn:C.
+        + apply Z.leb_le in C.
+          pose proof (cb_step a ex (iv_id e) (iv_off e) bytes Qe (wf_take st e bytes He (conj Hb C)) I HB) as S.
+          destruct (cb a (iv_id e) (iv_off e) bytes) as [a'|a'|]; [| |exact S].
+          * rewrite bytesT_take in S by lia.
+            assert (F1 : firstn (Z.to_nat (bytes - 0)) (bytesT st e ++ flatT st v) = firstn (Z.to_nat bytes) (bytesT st e)).
+            { rewrite Z.sub_0_r. apply firstn_app_Z; lia. }
+            destruct (iv_len e - bytes =? 0) eqn:Z0.
+            -- apply Z.eqb_eq in Z0. rewrite F1. repeat split; auto; try lia.
+               rewrite Z.sub_0_r, skipn_app_Z2 by lia. replace (bytes - zlen (bytesT st e)) with 0 by lia. reflexivity.
+            -- apply Z.eqb_neq in Z0. rewrite F1. repeat split; auto; try lia.
+               ++ rewrite Z.sub_0_r, flatT_cons, skipn_app_Z by lia. f_equal. apply bytesT_drop; lia.
+               ++ constructor; auto. apply wf_drop; auto; lia.
+               ++ constructor; auto.
+               ++ rewrite zlen_cons; lia.
+          * exists 0. rewrite firstn_0, app_nil_r, skipn_0, flatT_cons. repeat split; auto; try lia.
+            ++ constructor; auto.
+            ++ rewrite zlen_cons; lia.
+        + apply Z.leb_gt in C.
+          assert (HB2 : zlen ex + iv_len e <= B) by lia.
+          pose proof (cb_step a ex (iv_id e) (iv_off e) (iv_len e) Qe He I HB2) as S.
+          destruct (cb a (iv_id e) (iv_off e) (iv_len e)) as [a'|a'|]; [| |exact S].
+          * rewrite bytesT_eta in S.
+            assert (HB3 : zlen (ex ++ bytesT st e) + (bytes - iv_len e) <= B) by (rewrite zlen_app; lia).
+            specialize (IH Qr (bytes - iv_len e) a' (ex ++ bytesT st e) ltac:(lia) HB3 S).
+            destruct (xf_loop cb v (bytes - iv_len e) a') as [|v' a''|v' rem a'']; [exact IH| |].
+            -- destruct IH as (k & Hk & Hks & I' & F & W & Q' & L).
+               exists (iv_len e + k). repeat split; auto; try lia.
+               ++ rewrite firstn_app_Z2 by lia. rewrite Lb, app_assoc. replace (iv_len e + k - iv_len e) with k by lia. exact I'.
+               ++ rewrite skipn_app_Z2 by lia. rewrite Lb. replace (iv_len e + k - iv_len e) with k by lia. exact F.
+            -- destruct IH as (Hr & Hm & I' & F & W & Q' & L).
+               replace (bytes - rem) with (iv_len e + (bytes - iv_len e - rem)) by lia.
+               repeat split; auto; try lia.
+               ++ rewrite firstn_app_Z2 by lia. rewrite Lb, app_assoc.
+                  replace (iv_len e + (bytes - iv_len e - rem) - iv_len e) with (bytes - iv_len e - rem) by lia. exact I'.
+               ++ rewrite skipn_app_Z2 by lia. rewrite Lb.
+                  replace (iv_len e + (bytes - iv_len e - rem) - iv_len e) with (bytes - iv_len e - rem) by lia. exact F.
+          * exists 0. rewrite firstn_0, app_nil_r, skipn_0, flatT_cons. repeat split; auto; try lia.
+            ++ constructor; auto.
+            ++ rewrite zlen_cons; lia.
+    Qed.
+  End Front.
+
+  (* ---------- back: the loop runs on the reversed list; ex = bytes extracted so far (a suffix) *)
+  Section Back.
+    Context (Inv NegI : A -> list byte -> Prop).
+    Hypothesis cb_step : forall a ex id off n, Qid id -> wf_elem st (mkiov id off n) -> Inv a ex -> zlen ex + n <= B ->
+      match cb a id off n with
+      | CbOk a' => Inv a' (bytesT st (mkiov id off n) ++ ex)
+      | CbNeg a' => NegI a' ex
+      | CbOob => False
+      end.
+
+    Lemma xb_loop_spec rv : wf_view st rv -> Qv rv -> forall bytes a ex, 0 <= bytes -> zlen ex + bytes <= B -> Inv a ex ->
+      let F := flatT st (rev rv) in
+      match xb_loop cb rv bytes a with
+      | XOob => False
+      | XDone rv' rem a' =>
+          0 <= rem /\ bytes - rem = Z.min bytes (v_sum rv) /\
+          Inv a' (skipn (Z.to_nat (zlen F - (bytes - rem))) F ++ ex) /\
+          flatT st (rev rv') = firstn (Z.to_nat (zlen F - (bytes - rem))) F /\ wf_view st rv' /\ Qv rv' /\
+          zlen rv' <= zlen rv
+      | XNeg rv' a' =>
+          exists k, 0 <= k <= bytes /\ k <= v_sum rv /\ NegI a' (skipn (Z.to_nat (zlen F - k)) F ++ ex) /\
+                    flatT st (rev rv') = firstn (Z.to_nat (zlen F - k)) F /\ wf_view st rv' /\ Qv rv' /\ zlen rv' <= zlen rv
+      end.
+    Proof.
+      induction 1 as [|e v He Hv IH]; intros Q bytes a ex Hb HB I; simpl.
+      - unfold v_sum; simpl. rewrite Z.sub_diag. repeat split; auto; try lia; constructor.
+      - inversion Q as [|? ? Qe Qr]; subst.
+        pose proof (wf_len_nonneg _ _ He) as Hl. pose proof (wf_off_nonneg _ _ He) as Ho.
+        pose proof (v_sum_nonneg st v Hv) as Hsum. pose proof (zlen_bytesT _ _ He) as Lb.
+        pose proof (zlen_flatT_rev st v Hv) as LF.
+        rewrite v_sum_cons, flatT_app, flatT_single, zlen_app, zlen_cons, Lb, LF.
+        set (Fr := flatT st (rev v)) in *. set (Be := bytesT st e) in *.
+        destruct (bytes <=? iv_len e) eqn:C.
+        + apply Z.leb_le in C.
+          assert (Wp : wf_elem st (mkiov (iv_id e) (iv_off e + iv_len e - bytes) bytes)).
+          { replace (iv_off e + iv_len e - bytes) with (iv_off e + (iv_len e - bytes)) by lia.
+            apply wf_mid; auto; lia. }
+          pose proof (cb_step a ex (iv_id e) (iv_off e + iv_len e - bytes) bytes Qe Wp I HB) as S.
+          destruct (cb a (iv_id e) (iv_off e + iv_len e - bytes) bytes) as [a'|a'|]; [| |exact S].
+          * assert (P : bytesT st (mkiov (iv_id e) (iv_off e + iv_len e - bytes) bytes) = skipn (Z.to_nat (iv_len e - bytes)) Be).
+            { replace (iv_off e + iv_len e - bytes) with (iv_off e + (iv_len e - bytes)) by lia.
+              replace bytes with (iv_len e - (iv_len e - bytes)) at 2 by lia. apply bytesT_drop; lia. }
+            rewrite P in S.
+            assert (F1 : skipn (Z.to_nat (v_sum v + iv_len e - (bytes - 0))) (Fr ++ Be) = skipn (Z.to_nat (iv_len e - bytes)) Be).
+            { rewrite skipn_app_Z2 by lia. f_equal. lia. }
+            assert (F2 : firstn (Z.to_nat (v_sum v + iv_len e - (bytes - 0))) (Fr ++ Be) = Fr ++ firstn (Z.to_nat (iv_len e - bytes)) Be).
+            { rewrite firstn_app_Z2 by lia. do 2 f_equal. lia. }
+            destruct (iv_len e - bytes =? 0) eqn:Z0.
+            -- apply Z.eqb_eq in Z0. rewrite F1, F2. repeat split; auto; try lia.
+               rewrite Z0. simpl. rewrite app_nil_r. reflexivity.
+            -- apply Z.eqb_neq in Z0. rewrite F1, F2. repeat split; auto; try lia.
+               ++ simpl rev. rewrite flatT_app, flatT_single. f_equal. apply bytesT_take; lia.
+               ++ constructor; auto. apply wf_take; auto; lia.
+               ++ constructor; auto.
+               ++ rewrite zlen_cons; lia.
+          * exists 0. rewrite Z.sub_0_r.
+            rewrite skipn_whole by (rewrite zlen_app; lia). rewrite firstn_whole by (rewrite zlen_app; lia).
+            simpl rev. rewrite flatT_app, flatT_single. repeat split; auto; try lia.
+            ++ constructor; auto.
+            ++ rewrite zlen_cons; lia.
+        + apply Z.leb_gt in C.
+          assert (HB2 : zlen ex + iv_len e <= B) by lia.
+          pose proof (cb_step a ex (iv_id e) (iv_off e) (iv_len e) Qe He I HB2) as S.
+          destruct (cb a (iv_id e) (iv_off e) (iv_len e)) as [a'|a'|]; [| |exact S].
+          * rewrite bytesT_eta in S. fold Be in S.
+            assert (HB3 : zlen (Be ++ ex) + (bytes - iv_len e) <= B) by (rewrite zlen_app; lia).
+            specialize (IH Qr (bytes - iv_len e) a' (Be ++ ex) ltac:(lia) HB3 S). cbv zeta in IH. fold Fr in IH. rewrite LF in IH.
+            destruct (xb_loop cb v (bytes - iv_len e) a') as [|v' a''|v' rem a'']; [exact IH| |].
+            -- destruct IH as (k & Hk & Hks & I' & F & W & Q' & L).
+               exists (iv_len e + k). repeat split; auto; try lia.
+               ++ replace (v_sum v + iv_len e - (iv_len e + k)) with (v_sum v - k) by lia.
+                  rewrite skipn_app_Z by lia. rewrite <- app_assoc. exact I'.
+               ++ replace (v_sum v + iv_len e - (iv_len e + k)) with (v_sum v - k) by lia.
+                  rewrite firstn_app_Z by lia. exact F.
+            -- destruct IH as (Hr & Hm & I' & F & W & Q' & L).
+               replace (v_sum v + iv_len e - (bytes - rem)) with (v_sum v - (bytes - iv_len e - rem)) by lia.
+               repeat split; auto; try lia.
+               ++ rewrite skipn_app_Z by lia. rewrite <- app_assoc. exact I'.
+               ++ rewrite firstn_app_Z by lia. exact F.
+          * exists 0. rewrite Z.sub_0_r.
+            rewrite skipn_whole by (rewrite zlen_app; lia). rewrite firstn_whole by (rewrite zlen_app; lia).
+            simpl rev. rewrite flatT_app, flatT_single. repeat split; auto; try lia.
+            ++ constructor; auto.
+            ++ rewrite zlen_cons; lia.
+    Qed.
+  End Back.
+End XLoops.
+
+
+Definition anyid : Z -> Prop := fun _ => True.
+Lemma Qv_any v : Qv anyid v.
+Proof. apply Forall_forall; intros; exact I. Qed.
+
+(* ================================================================ extract_front / extract_back (discarding) *)
+Lemma xf_discard_refines st v bytes : wf_view st v -> 0 <= bytes ->
+  exists v' rem, do_extract_front cb_discard v bytes tt = XDone v' rem tt /\
+    bytes - rem = Z.min bytes (v_sum v) /\ flatT st v' = skipn (Z.to_nat (bytes - rem)) (flatT st v) /\
+    wf_view st v' /\ zlen v' <= zlen v.
+Proof.
+  intros W Hb. pose proof (v_sum_nonneg st v W) as Hs. unfold do_extract_front. destruct (bytes =? 0) eqn:Z0.
+  - apply Z.eqb_eq in Z0; subst. exists v, 0. repeat split; auto; lia.
+  - assert (St : forall (a : unit) (ex : list byte) id off n, anyid id -> wf_elem st (mkiov id off n) -> True -> zlen ex + n <= bytes ->
+                 match cb_discard a id off n with CbOk a' => True | CbNeg a' => False | CbOob => False end) by (intros; exact I).
+    pose proof (xf_loop_spec cb_discard st anyid bytes (fun _ _ => True) (fun _ _ => False) St v W (Qv_any v) bytes tt [] Hb ltac:(rewrite zlen_nil; lia) I) as G.
+    destruct (xf_loop cb_discard v bytes tt) as [|v' a'|v' rem a']; [contradiction| |].
+    + destruct G as (k & _ & _ & [] & _).
+    + destruct a'. exists v', rem. destruct G as (? & ? & _ & ? & ? & _ & ?). repeat split; auto.
+Qed.
+
+Lemma xb_discard_refines st v bytes : wf_view st v -> 0 <= bytes ->
+  exists v' rem, do_extract_back cb_discard v bytes tt = XDone v' rem tt /\
+    bytes - rem = Z.min bytes (v_sum v) /\
+    flatT st v' = firstn (Z.to_nat (v_sum v - (bytes - rem))) (flatT st v) /\
+    wf_view st v' /\ zlen v' <= zlen v.
+Proof.
+  intros W Hb. pose proof (v_sum_nonneg st v W) as Hs. pose proof (zlen_flatT st v W) as LF.
+  unfold do_extract_back. destruct (bytes =? 0) eqn:Z0.
+  - apply Z.eqb_eq in Z0; subst. exists v, 0. repeat split; auto; try lia.
+    rewrite firstn_whole; [reflexivity|lia].
+  - assert (St : forall (a : unit) (ex : list byte) id off n, anyid id -> wf_elem st (mkiov id off n) -> True -> zlen ex + n <= bytes ->
+                 match cb_discard a id off n with CbOk a' => True | CbNeg a' => False | CbOob => False end) by (intros; exact I).
+    assert (Wr : wf_view st (rev v)) by (apply Forall_rev; exact W).
+    pose proof (xb_loop_spec cb_discard st anyid bytes (fun _ _ => True) (fun _ _ => False) St (rev v) Wr (Qv_any _) bytes tt [] Hb ltac:(rewrite zlen_nil; lia) I) as G.
+    cbv zeta in G. rewrite rev_involutive in G.
+    assert (SR : v_sum (rev v) = v_sum v) by (rewrite <- (zlen_flatT_rev st (rev v) Wr), rev_involutive; exact LF).
+    rewrite SR, LF in G.
+    destruct (xb_loop cb_discard (rev v) bytes tt) as [|v' a'|v' rem a']; [contradiction| |]; simpl.
+    + destruct G as (k & _ & _ & [] & _).
+    + destruct a'. exists (rev v'), rem. destruct G as (? & ? & _ & ? & ? & _ & ?). repeat split; auto.
+      * apply Forall_rev; assumption.
+      * rewrite zlen_rev. rewrite zlen_rev in *. assumption.
+Qed.
+
+(* ================================================================ extract_front / extract_back into an out view *)
+Definition vInv (st : store) (a : view) (ex : list byte) : Prop := flatT st a = ex /\ wf_view st a.
+Lemma cb_view_front_step st N B : forall (a : view) ex id off n, anyid id -> wf_elem st (mkiov id off n) -> vInv st a ex -> zlen ex + n <= B ->
+  match cb_view_front N a id off n with
+  | CbOk a' => vInv st a' (ex ++ bytesT st (mkiov id off n)) | CbNeg a' => vInv st a' ex | CbOob => False end.
+Proof.
+  intros a ex id off n _ W [F Wa] _. unfold cb_view_front. destruct (zlen a =? N); [split; auto|].
+  split; [rewrite flatT_app, flatT_single, F; reflexivity | apply Forall_app; split; auto].
+Qed.
+Lemma cb_view_back_step st N B : forall (a : view) ex id off n, anyid id -> wf_elem st (mkiov id off n) -> vInv st a ex -> zlen ex + n <= B ->
+  match cb_view_back N a id off n with
+  | CbOk a' => vInv st a' (bytesT st (mkiov id off n) ++ ex) | CbNeg a' => vInv st a' ex | CbOob => False end.
+Proof.
+  intros a ex id off n _ W [F Wa] _. unfold cb_view_back. destruct (zlen a =? N); [split; auto|].
+  split; [rewrite flatT_cons, F; reflexivity | constructor; auto].
+Qed.
+
+(* result: XDone -> out = first k bytes, rest = the remaining bytes; XNeg (-1) -> out ++ rest = all bytes *)
+Lemma xf_view_refines st v bytes N : wf_view st v -> 0 <= bytes ->
+  match do_extract_front (cb_view_front N) v bytes [] with
+  | XOob => False
+  | XDone v' rem a =>
+      bytes - rem = Z.min bytes (v_sum v) /\ flatT st a = firstn (Z.to_nat (bytes - rem)) (flatT st v) /\
+      flatT st v' = skipn (Z.to_nat (bytes - rem)) (flatT st v) /\ wf_view st v' /\ wf_view st a /\ zlen v' <= zlen v
+  | XNeg v' a => flatT st a ++ flatT st v' = flatT st v /\ wf_view st v' /\ wf_view st a /\ zlen v' <= zlen v
+  end.
+Proof.
+  intros W Hb. pose proof (v_sum_nonneg st v W) as Hs. unfold do_extract_front. destruct (bytes =? 0) eqn:Z0.
+  - apply Z.eqb_eq in Z0; subst. repeat split; auto; try lia. constructor.
+  - pose proof (xf_loop_spec (cb_view_front N) st anyid bytes (vInv st) (vInv st) (cb_view_front_step st N bytes) v W (Qv_any v) bytes [] [] Hb
+                  ltac:(rewrite zlen_nil; lia) ltac:(split; [reflexivity|constructor])) as G.
+    destruct (xf_loop (cb_view_front N) v bytes []) as [|v' a'|v' rem a']; [contradiction| |].
+    + destruct G as (k & _ & _ & [F Wa] & F2 & W2 & _ & L). simpl in F. rewrite F, F2, firstn_skipn. auto.
+    + destruct G as (? & ? & [F Wa] & ? & ? & _ & ?). simpl in F. repeat split; auto.
+Qed.
+
+Lemma xb_view_refines st v bytes N : wf_view st v -> 0 <= bytes ->
+  match do_extract_back (cb_view_back N) v bytes [] with
+  | XOob => False
+  | XDone v' rem a =>
+      bytes - rem = Z.min bytes (v_sum v) /\ flatT st a = skipn (Z.to_nat (v_sum v - (bytes - rem))) (flatT st v) /\
+      flatT st v' = firstn (Z.to_nat (v_sum v - (bytes - rem))) (flatT st v) /\ wf_view st v' /\ wf_view st a /\ zlen v' <= zlen v
+  | XNeg v' a => flatT st v' ++ flatT st a = flatT st v /\ wf_view st v' /\ wf_view st a /\ zlen v' <= zlen v
+  end.
+Proof.
+  intros W Hb. pose proof (v_sum_nonneg st v W) as Hs. pose proof (zlen_flatT st v W) as LF.
+  unfold do_extract_back. destruct (bytes =? 0) eqn:Z0.
+  - apply Z.eqb_eq in Z0; subst. repeat split; auto; try lia.
+    + rewrite skipn_whole; [reflexivity|lia].
+    + rewrite firstn_whole; [reflexivity|lia].
+    + constructor.
+  - assert (Wr : wf_view st (rev v)) by (apply Forall_rev; exact W).
+    pose proof (xb_loop_spec (cb_view_back N) st anyid bytes (vInv st) (vInv st) (cb_view_back_step st N bytes) (rev v) Wr (Qv_any _) bytes [] [] Hb
+                  ltac:(rewrite zlen_nil; lia) ltac:(split; [reflexivity|constructor])) as G.
+    cbv zeta in G. rewrite rev_involutive in G.
+    assert (SR : v_sum (rev v) = v_sum v) by (rewrite <- (zlen_flatT_rev st (rev v) Wr), rev_involutive; exact LF).
+    rewrite SR, LF in G.
+    destruct (xb_loop (cb_view_back N) (rev v) bytes []) as [|v' a'|v' rem a']; [contradiction| |]; simpl.
+    + destruct G as (k & _ & _ & [F Wa] & F2 & W2 & _ & L). rewrite app_nil_r in F. rewrite F, F2, firstn_skipn.
+      repeat split; auto; [apply Forall_rev; auto | rewrite zlen_rev in *; auto].
+    + destruct G as (? & ? & [F Wa] & ? & ? & _ & ?). rewrite app_nil_r in F. repeat split; auto.
+      * apply Forall_rev; auto.
+      * rewrite zlen_rev in *; auto.
+Qed.
+
+(* ================================================================ extract_front / extract_back copying into a buffer *)
+Definition agree_except (d : Z) (st' st1 : store) : Prop :=
+  zlen st' = zlen st1 /\ forall j, j <> d -> get_buf st' j = get_buf st1 j.
+Lemma agree_refl d st : agree_except d st st.
+Proof. split; auto. Qed.
+Lemma agree_wf_elem d st' st1 e : agree_except d st' st1 -> iv_id e <> d -> wf_elem st1 e -> wf_elem st' e.
+Proof. intros [_ Ag] Hd (b & Hb & H). exists b. rewrite Ag by exact Hd. auto. Qed.
+Lemma agree_bytesT d st' st1 e : agree_except d st' st1 -> iv_id e <> d -> bytesT st' e = bytesT st1 e.
+Proof. intros [_ Ag] Hd. unfold bytesT. rewrite Ag by exact Hd. reflexivity. Qed.
+Lemma agree_view d st' st1 v : agree_except d st' st1 -> Qv (fun id => id <> d) v -> wf_view st1 v ->
+  wf_view st' v /\ flatT st' v = flatT st1 v.
+Proof.
+  intros Ag Q W. induction W as [|e v He Hv IH]; [split; [constructor|reflexivity]|].
+  inversion Q as [|? ? Qe Qr]; subst. destruct (IH Qr) as [W' F']. split.
+  - constructor; [eapply agree_wf_elem; eauto | exact W'].
+  - rewrite !flatT_cons, F', (agree_bytesT _ _ _ _ Ag Qe). reflexivity.
+Qed.
+
+Lemma splice_append (ex r data : list byte) : splice (ex ++ r) (zlen ex) data = ex ++ data ++ skipn (length data) r.
+Proof.
+  unfold splice, zlen. rewrite Nat2Z.id. rewrite firstn_app_le by lia. rewrite firstn_all.
+  rewrite skipn_app_ge by lia. do 3 f_equal. lia.
+Qed.
+Lemma splice_prepend (l ex data : list byte) (p : Z) : 0 <= p -> p + zlen data = zlen l ->
+  splice (l ++ ex) p data = firstn (Z.to_nat p) l ++ data ++ ex.
+Proof.
+  unfold splice, zlen. intros Hp Hl. rewrite firstn_app_le by lia.
+  rewrite skipn_app_ge by lia. replace (Z.to_nat p + length data - length l)%nat with O by lia. reflexivity.
+Qed.
+
+Definition cfInv (st1 : store) (d : Z) (pat : list byte) (a : store * Z) (ex : list byte) : Prop :=
+  snd a = zlen ex /\ agree_except d (fst a) st1 /\ get_buf (fst a) d = Some (ex ++ skipn (Z.to_nat (snd a)) pat).
+Definition cbInv (st1 : store) (d : Z) (pat : list byte) (a : store * Z) (ex : list byte) : Prop :=
+  snd a = zlen pat - zlen ex /\ agree_except d (fst a) st1 /\ get_buf (fst a) d = Some (firstn (Z.to_nat (snd a)) pat ++ ex).
+
+Lemma load_agree d st' st1 id off n : agree_except d st' st1 -> id <> d -> wf_elem st1 (mkiov id off n) ->
+  load st' id off n = Some (bytesT st1 (mkiov id off n)) /\ zlen (bytesT st1 (mkiov id off n)) = n.
+Proof.
+  intros [_ Ag] Hd W. pose proof (zlen_bytesT _ _ W) as L. destruct W as (b & Hb & H1 & H2 & H3). simpl in *.
+  unfold load, bytesT. simpl. rewrite Ag by exact Hd. rewrite Hb, in_range_true by lia. split; [reflexivity|].
+  unfold bytesT in L; simpl in L; rewrite Hb in L. exact L.
+Qed.
+
+Lemma cb_copy_front_step st1 d pat : forall (a : store * Z) ex id off n, id <> d -> wf_elem st1 (mkiov id off n) ->
+  cfInv st1 d pat a ex -> zlen ex + n <= zlen pat ->
+  match cb_copy_front d a id off n with
+  | CbOk a' => cfInv st1 d pat a' (ex ++ bytesT st1 (mkiov id off n)) | CbNeg a' => False | CbOob => False end.
+Proof.
+  intros [st' pos] ex id off n Hd W (P & Ag & Gd) HB. simpl in P, Ag, Gd. subst pos.
+  destruct (load_agree _ _ _ _ _ _ Ag Hd W) as [Ld Ln]. pose proof (wf_len_nonneg _ _ W) as Hn. simpl in Hn.
+  unfold cb_copy_front, memcpy. rewrite Ld. set (data := bytesT st1 (mkiov id off n)) in *.
+  pose proof (zlen_nonneg ex) as Hex.
+  assert (Lc : zlen (ex ++ skipn (Z.to_nat (zlen ex)) pat) = zlen pat) by (rewrite zlen_app, zlen_skipn by lia; lia).
+  destruct (store_bytes st' d (zlen ex) data) as [st''|] eqn:SB.
+  - destruct (store_bytes_get _ _ _ _ _ SB) as (b0 & Hb0 & _ & _ & Hn0 & Hoth & Hz). rewrite Gd in Hb0; inversion Hb0; subst b0.
+    destruct Ag as [Az Ag]. split; [|split]; simpl.
+    + rewrite zlen_app; lia.
+    + split; [lia|]. intros j Hj. rewrite Hoth by exact Hj. apply Ag; exact Hj.
+    + rewrite Hn0, splice_append, <- app_assoc. f_equal. f_equal. f_equal. rewrite skipn_skipn'. f_equal. unfold zlen in *. lia.
+  - unfold store_bytes in SB. rewrite Gd, in_range_true in SB by lia. discriminate.
+Qed.
+
+Lemma cb_copy_back_step st1 d pat : forall (a : store * Z) ex id off n, id <> d -> wf_elem st1 (mkiov id off n) ->
+  cbInv st1 d pat a ex -> zlen ex + n <= zlen pat ->
+  match cb_copy_back d a id off n with
+  | CbOk a' => cbInv st1 d pat a' (bytesT st1 (mkiov id off n) ++ ex) | CbNeg a' => False | CbOob => False end.
+Proof.
+  intros [st' pos] ex id off n Hd W (P & Ag & Gd) HB. simpl in P, Ag, Gd. subst pos.
+  destruct (load_agree _ _ _ _ _ _ Ag Hd W) as [Ld Ln]. pose proof (wf_len_nonneg _ _ W) as Hn. simpl in Hn.
+  unfold cb_copy_back, memcpy. rewrite Ld. set (data := bytesT st1 (mkiov id off n)) in *.
+  pose proof (zlen_nonneg ex) as Hex. set (pos := zlen pat - zlen ex) in *.
+  assert (Lf : zlen (firstn (Z.to_nat pos) pat) = pos) by (apply zlen_firstn; lia).
+  assert (Lc : zlen (firstn (Z.to_nat pos) pat ++ ex) = zlen pat) by (rewrite zlen_app; lia).
+  destruct (store_bytes st' d (pos - n) data) as [st''|] eqn:SB.
+  - destruct (store_bytes_get _ _ _ _ _ SB) as (b0 & Hb0 & _ & _ & Hn0 & Hoth & Hz). rewrite Gd in Hb0; inversion Hb0; subst b0.
+    destruct Ag as [Az Ag]. split; [|split]; simpl.
+    + rewrite zlen_app; lia.
+    + split; [lia|]. intros j Hj. rewrite Hoth by exact Hj. apply Ag; exact Hj.
+    + rewrite Hn0, splice_prepend by lia. rewrite firstn_firstn. do 2 f_equal. lia.
+  - unfold store_bytes in SB. rewrite Gd, in_range_true in SB by lia. discriminate.
+Qed.
+
+(* extract_front(n, buf) with buf = a fresh n-byte buffer d appended to the store *)
+Lemma xf_copy_refines st v n : wf_view st v -> 0 <= n ->
+  let d := zlen st in let pat := pattern d n in let st1 := st ++ [pat] in
+  exists v' rem st2 pos, do_extract_front (cb_copy_front d) v n (st1, 0) = XDone v' rem (st2, pos) /\
+    n - rem = Z.min n (v_sum v) /\ flatT st2 v' = skipn (Z.to_nat (n - rem)) (flatT st v) /\ wf_view st2 v' /\
+    get_buf st2 d = Some (firstn (Z.to_nat (n - rem)) (flatT st v) ++ skipn (Z.to_nat (n - rem)) pat) /\
+    zlen v' <= zlen v /\ agree_except d st2 st1.
+Proof.
+  intros W Hn d pat st1.
+  assert (W1 : wf_view st1 v) by (apply wf_view_app; exact W).
+  assert (F1 : flatT st1 v = flatT st v) by (apply flatT_app_store; exact W).
+  assert (Q : Qv (fun id => id <> d) v).
+  { apply Forall_forall. intros e He. pose proof (wf_elem_id_lt st e (proj1 (Forall_forall _ _) W e He)). unfold d; lia. }
+  assert (Lp : zlen pat = n) by (apply pattern_length; exact Hn).
+  assert (Gd : get_buf st1 d = Some pat) by apply get_buf_new.
+  pose proof (v_sum_nonneg st v W) as Hs. unfold do_extract_front. destruct (n =? 0) eqn:Z0.
+  - apply Z.eqb_eq in Z0. exists v, 0, st1, 0. subst n. repeat split; auto; try lia. apply agree_refl.
+  - pose proof (xf_loop_spec (cb_copy_front d) st1 (fun id => id <> d) (zlen pat) (cfInv st1 d pat) (fun _ _ => False)
+                  (cb_copy_front_step st1 d pat) v W1 Q n (st1, 0) [] Hn ltac:(rewrite zlen_nil; lia)) as G.
+    assert (I0 : cfInv st1 d pat (st1, 0) []) by (split; [reflexivity| split; [apply agree_refl | exact Gd]]).
+    specialize (G I0).
+    destruct (xf_loop (cb_copy_front d) v n (st1, 0)) as [|v' a'|v' rem [st2 pos]]; [contradiction| |].
+    + destruct G as (k & _ & _ & [] & _).
+    + destruct G as (Hr & K & (P & Ag & Gd2) & Fv & W' & Q' & L). simpl in P, Ag, Gd2.
+      destruct (agree_view _ _ _ _ Ag Q' W') as [W2 F2].
+      exists v', rem, st2, pos. rewrite F1 in *. simpl app in Gd2.
+      assert (Pk : pos = n - rem).
+      { rewrite P. apply zlen_firstn. rewrite (zlen_flatT st v W). lia. }
+      repeat split; auto.
+      * rewrite F2; exact Fv.
+      * rewrite Gd2, Pk. reflexivity.
+Qed.
+
+(* extract_back(n, buf): the k extracted bytes land at buf[n-k .. n) *)
+Lemma xb_copy_refines st v n : wf_view st v -> 0 <= n ->
+  let d := zlen st in let pat := pattern d n in let st1 := st ++ [pat] in
+  exists v' rem st2 pos, do_extract_back (cb_copy_back d) v n (st1, n) = XDone v' rem (st2, pos) /\
+    n - rem = Z.min n (v_sum v) /\ flatT st2 v' = firstn (Z.to_nat (v_sum v - (n - rem))) (flatT st v) /\ wf_view st2 v' /\
+    get_buf st2 d = Some (firstn (Z.to_nat rem) pat ++ skipn (Z.to_nat (v_sum v - (n - rem))) (flatT st v)) /\
+    zlen v' <= zlen v /\ agree_except d st2 st1.
+Proof.
+  intros W Hn d pat st1.
+  assert (W1 : wf_view st1 v) by (apply wf_view_app; exact W).
+  assert (F1 : flatT st1 v = flatT st v) by (apply flatT_app_store; exact W).
+  assert (Q : Qv (fun id => id <> d) v).
+  { apply Forall_forall. intros e He. pose proof (wf_elem_id_lt st e (proj1 (Forall_forall _ _) W e He)). unfold d; lia. }
+  assert (Lp : zlen pat = n) by (apply pattern_length; exact Hn).
+  assert (Gd : get_buf st1 d = Some pat) by apply get_buf_new.
+  pose proof (v_sum_nonneg st v W) as Hs. pose proof (zlen_flatT st v W) as LF.
+  unfold do_extract_back. destruct (n =? 0) eqn:Z0.
+  - apply Z.eqb_eq in Z0. exists v, 0, st1, n. subst n. repeat split; auto; try lia.
+    + rewrite Z.sub_0_r, firstn_whole by lia. exact F1.
+    + rewrite Z.sub_0_r, skipn_whole by lia. rewrite Gd. destruct pat; [reflexivity|unfold zlen in Lp; simpl in Lp; lia].
+    + apply agree_refl.
+  - assert (Wr : wf_view st1 (rev v)) by (apply Forall_rev; exact W1).
+    assert (Qr : Qv (fun id => id <> d) (rev v)) by (apply Forall_rev; exact Q).
+    pose proof (xb_loop_spec (cb_copy_back d) st1 (fun id => id <> d) (zlen pat) (cbInv st1 d pat) (fun _ _ => False)
+                  (cb_copy_back_step st1 d pat) (rev v) Wr Qr n (st1, n) [] Hn ltac:(rewrite zlen_nil; lia)) as G.
+    assert (I0 : cbInv st1 d pat (st1, n) []).
+    { split; [simpl; rewrite zlen_nil; lia| split; [apply agree_refl |]]. simpl. rewrite Gd, app_nil_r, firstn_whole by lia. reflexivity. }
+    specialize (G I0). cbv zeta in G. rewrite rev_involutive, F1 in G.
+    assert (SR : v_sum (rev v) = v_sum v).
+    { rewrite <- (zlen_flatT_rev st1 (rev v) Wr), rev_involutive, F1; exact LF. }
+    rewrite SR, LF in G.
+    destruct (xb_loop (cb_copy_back d) (rev v) n (st1, n)) as [|v' a'|v' rem [st2 pos]]; [contradiction| |]; simpl.
+    + destruct G as (k & _ & _ & [] & _).
+    + destruct G as (Hr & K & (P & Ag & Gd2) & Fv & W' & Q' & L). simpl in P, Ag, Gd2.
+      assert (Wv : wf_view st1 (rev v')) by (apply Forall_rev; exact W').
+      assert (Qv' : Qv (fun id => id <> d) (rev v')) by (apply Forall_rev; exact Q').
+      destruct (agree_view _ _ _ _ Ag Qv' Wv) as [W2 F2].
+      exists (rev v'), rem, st2, pos. rewrite app_nil_r in *.
+      assert (Pk : pos = rem).
+      { rewrite P, Lp. rewrite zlen_skipn by lia. lia. }
+      repeat split; auto.
+      * rewrite F2; exact Fv.
+      * rewrite Gd2, Pk. reflexivity.
+      * rewrite zlen_rev in *. exact L.
+Qed.
